@@ -42,6 +42,16 @@ def dispatch (op : String) (args : List String) : Option String :=
         | .ok _ size => some size
         | _ => none
       pure (match protectRanges avc (some hdr) s with | some l => showRanges l | none => "err")
+  | "cbcs.hevcranges", [ss, ps, h] => do
+      -- cbcs sub-sample map of an HEVC sample: the range computation fed with the slice segment header sizes of the
+      -- slice header model (Model/HevcSlice.lean) over the parameter-set models (Model/HevcSps.lean, HevcPps.lean)
+      let s ← fromHex h
+      let (sm, pm) := C15.hevcMaps (← C15.hexList ss) (← C15.hexList ps)
+      let hdr := fun (n : Bytes) =>
+        match HevcSlice.parseSlice (HevcSlice.fuel n) sm pm n with
+        | .ok _ size => some size
+        | _ => none
+      pure (match protectRanges hevc (some hdr) s with | some l => showRanges l | none => "err")
   | "cenc.apr", [a, b] => do pure (showRanges (appendProtectRange [] (← a.toNat?) (← b.toNat?)))
   | "cenc.crypt", [k, iv, rs, h] => do
       let key ← fromHex k
